@@ -52,4 +52,10 @@ Recover(r, s, e) ==
   IF ~(r \in 1..(N - 1) /\ s \in 1..(N - 1)) THEN {}
   ELSE {PMul(InvN(r), PAdd(MulDA(s, R), PNeg(KG(e)))) :
           R \in {pt \in {<<r, y>> : y \in Fp} : OnCurve(pt)}}
+
+(* every key under which (r, s) verifies for e: as above but over all R with x(R) = r mod N *)
+RecoverAll(r, s, e) ==
+  IF ~(r \in 1..(N - 1) /\ s \in 1..(N - 1)) THEN {}
+  ELSE {PMul(InvN(r), PAdd(MulDA(s, R), PNeg(KG(e)))) :
+          R \in {pt \in {<<x, y>> : x \in {v \in Fp : v % N = r}, y \in Fp} : OnCurve(pt)}}
 =============================================================================
